@@ -124,14 +124,17 @@ func (g *gen) failStmt(kind int) ir.Stmt {
 
 // defer statement kinds (the deferred callee)
 const (
-	deferProbe   = iota // defer p(k)
-	deferClosure        // x = 1; defer func(a) { v(a, x) }(x); x = 2   - argument as evaluated at the defer, captured variable as at the exit
-	deferThrows         // defer func() { throw "Dk" }()
-	deferDefers         // defer func() { defer p(k1); p(k2) }()
+	deferProbe      = iota     // defer p(k)
+	deferClosure               // x = 1; defer func(a) { v(a, x) }(x); x = 2   - argument as evaluated at the defer, captured variable as at the exit
+	deferThrows                // defer func() { throw "Dk" }()
+	deferDefers                // defer func() { defer p(k1); p(k2) }()
+	baseDefer                  // ---- kinds below: the deferred callee ITSELF is a Go function that panics ----
+	deferHostPanics = iota - 1 // defer boom(k)   - a host function that panics, deferred directly
+	deferNilFunc               // defer nilfn()   - a nil Go function value, deferred directly
 	numDefer
 )
 
-var deferNames = [...]string{"probe", "closure", "throws", "defers"}
+var deferNames = [...]string{"probe", "closure", "throws", "defers", "host-panics", "nil-func"}
 
 func (g *gen) deferGroup(kind int) []ir.Stmt {
 	switch kind {
@@ -147,18 +150,26 @@ func (g *gen) deferGroup(kind int) []ir.Stmt {
 	case deferDefers:
 		lit := &ir.FuncLit{Body: []ir.Stmt{ir.Defer{Call: ir.Probe{ID: g.id()}}, g.p()}}
 		return []ir.Stmt{ir.Defer{Call: ir.Call{Fn: lit}}}
+	case deferHostPanics:
+		return []ir.Stmt{ir.Defer{Call: ir.Boom{ID: g.id()}}}
+	case deferNilFunc:
+		return []ir.Stmt{ir.Defer{Call: ir.Call{Fn: ir.HostNilFunc{}}}}
 	}
 	panic("bad defer kind")
 }
 
 // Spec is the coordinate of one program (and the replay payload).
 type Spec struct {
-	Ws         []int `json:"ws,omitempty"`   // wrapper indices, outermost first
-	Fail       int   `json:"fail,omitempty"` // failure kind
-	Level      int   `json:"lvl,omitempty"`  // level whose statement list holds the failure point
-	Pos        int   `json:"pos,omitempty"`  // statement position in that list
-	Defers     []int `json:"defers,omitempty"`
-	DeferLevel int   `json:"dlvl,omitempty"` // level whose statement list holds the defer statements
+	Fam        string `json:"fam,omitempty"`  // "" = spine with defer groups, "rebind" = one `defer name(args)` statement executed several times
+	A          int    `json:"a,omitempty"`    // rebind: form
+	B          int    `json:"b,omitempty"`    // rebind: exit of the deferring body (0 normal, 1 throw, 2 return)
+	C          int    `json:"c,omitempty"`    // rebind: 0 = two executions, 1 = three
+	Ws         []int  `json:"ws,omitempty"`   // wrapper indices, outermost first
+	Fail       int    `json:"fail,omitempty"` // failure kind
+	Level      int    `json:"lvl,omitempty"`  // level whose statement list holds the failure point
+	Pos        int    `json:"pos,omitempty"`  // statement position in that list
+	Defers     []int  `json:"defers,omitempty"`
+	DeferLevel int    `json:"dlvl,omitempty"` // level whose statement list holds the defer statements
 }
 
 // slots of the statement list of one level:
@@ -182,12 +193,21 @@ func positions(sp Spec, level int) int {
 }
 
 func buildSpine(sp Spec) []ir.Stmt {
+	return buildSpineWith(sp, nil)
+}
+
+// buildSpineWith: payload (may be nil) replaces the innermost probe.
+func buildSpineWith(sp Spec, payload func(g *gen) []ir.Stmt) []ir.Stmt {
 	g := &gen{}
 	depth := len(sp.Ws)
 	var body func(level int) []ir.Stmt
 	body = func(level int) []ir.Stmt {
 		var slots [][]ir.Stmt
-		slots = append(slots, []ir.Stmt{g.p()})
+		if level == depth && payload != nil {
+			slots = append(slots, cat([]ir.Stmt{g.p()}, payload(g)))
+		} else {
+			slots = append(slots, []ir.Stmt{g.p()})
+		}
 		if len(sp.Defers) > 0 && sp.DeferLevel == level {
 			var ds []ir.Stmt
 			for _, k := range sp.Defers {
@@ -250,4 +270,95 @@ func pathName(sp Spec) string {
 		names[i] = wrappers[w].name
 	}
 	return strings.Join(names, ">")
+}
+
+// ---- family "rebind": the plain-name form `defer name(args)` executed several
+// times while the name denotes a different function each time.  Every
+// execution registers the function the name denotes THEN (callee "as evaluated
+// at the defer statement"). ----
+
+var rebindForms = []string{"callback-parameter", "local-closure", "recursion-local-function", "loop-over-closures", "variable-rebound-in-loop", "loop-over-callbacks-in-function"}
+
+var rebindExits = []string{"normal", "throw", "return"}
+
+func rebindPayload(sp Spec) func(g *gen) []ir.Stmt {
+	return func(g *gen) []ir.Stmt {
+		n := 2 + sp.C
+		k := g.id()
+		name := func(base string, i int) string { return fmt.Sprintf("%s%d_%d", base, k, i) }
+		v := func(n string) ir.Expr { return ir.Var{Name: n} }
+		// a1, a2, (a3): log their own name and their argument
+		var defs []ir.Stmt
+		var fns []ir.Expr
+		for i := 1; i <= n; i++ {
+			a := name("a", i)
+			defs = append(defs, ir.Func(a, []string{"x"}, []ir.Stmt{ir.V(ir.S(a), v("x"))}))
+			fns = append(fns, v(a))
+		}
+		exit := func() []ir.Stmt {
+			switch sp.B {
+			case 1:
+				return []ir.Stmt{ir.Throw{X: ir.S(fmt.Sprintf("F%d", g.id())), Tag: failTag}}
+			case 2:
+				return []ir.Stmt{ir.Return{Vals: []ir.Expr{ir.I(5)}, Tag: failTag}}
+			}
+			return nil
+		}
+		// guarded runs a call statement inside a try so that a failing
+		// invocation does not prevent the next one
+		guarded := func(call ir.Expr) ir.Stmt {
+			e := fmt.Sprintf("e%d", g.id())
+			return ir.Try{Body: []ir.Stmt{ir.V(call)}, CatchVar: e, Catch: []ir.Stmt{ir.V(v(e))}}
+		}
+		switch sp.A {
+		case 0:
+			run := name("run", 0)
+			body := cat([]ir.Stmt{g.p(), ir.Defer{Call: ir.CallNamed("cb", ir.I(1))}}, exit(), []ir.Stmt{g.p(), ir.Return{Vals: []ir.Expr{ir.I(9)}}})
+			out := append(defs, ir.Func(run, []string{"cb"}, body))
+			for _, f := range fns {
+				out = append(out, guarded(ir.CallNamed(run, f)))
+			}
+			return out
+		case 1:
+			mk := name("mk", 0)
+			h := &ir.FuncLit{Params: []string{"x"}, Body: []ir.Stmt{ir.V(v("t"), v("x"))}}
+			body := cat([]ir.Stmt{ir.Set("h", h), ir.Defer{Call: ir.CallNamed("h", ir.I(1))}}, exit(), []ir.Stmt{g.p(), ir.Return{Vals: []ir.Expr{v("t")}}})
+			out := []ir.Stmt{ir.Func(mk, []string{"t"}, body)}
+			for i := 0; i < n; i++ {
+				out = append(out, guarded(ir.CallNamed(mk, ir.S(string(rune('A'+i))))))
+			}
+			return out
+		case 2:
+			rec := name("rec", 0)
+			body := cat([]ir.Stmt{
+				ir.Func("loc", []string{"x"}, []ir.Stmt{ir.V(v("n"), v("x"))}),
+				ir.Defer{Call: ir.CallNamed("loc", ir.Bin{Op: "*", L: v("n"), R: ir.I(10)})},
+				ir.If{Cond: ir.Bin{Op: ">", L: v("n"), R: ir.I(0)}, Then: []ir.Stmt{ir.ExprStmt{X: ir.CallNamed(rec, ir.Bin{Op: "-", L: v("n"), R: ir.I(1)})}}}},
+				exit(), []ir.Stmt{g.p(), ir.Return{Vals: []ir.Expr{v("n")}}})
+			return []ir.Stmt{ir.Func(rec, []string{"n"}, body), guarded(ir.CallNamed(rec, ir.I(int64(n-1))))}
+		case 3:
+			f := name("f", 0)
+			loop := ir.ForIn{Vars: []string{f}, Coll: ir.List{Elems: fns}, Body: []ir.Stmt{ir.Defer{Call: ir.CallNamed(f, ir.I(1))}, g.p()}}
+			return cat(defs, []ir.Stmt{loop}, exit())
+		case 4:
+			gv, i := name("g", 0), name("i", 0)
+			var elems []ir.Expr
+			for j := 1; j <= n; j++ {
+				elems = append(elems, ir.I(int64(j)))
+			}
+			// g = a1; for i in [1,2,(3)] { defer g(i); g = a<next> }
+			next := ir.Stmt(ir.Set(gv, fns[1]))
+			if n == 3 {
+				next = ir.If{Cond: ir.Bin{Op: "==", L: v(i), R: ir.I(1)}, Then: []ir.Stmt{ir.Set(gv, fns[1])}, HasElse: true, Else: []ir.Stmt{ir.Set(gv, fns[2])}}
+			}
+			loop := ir.ForIn{Vars: []string{i}, Coll: ir.List{Elems: elems}, Body: []ir.Stmt{ir.Defer{Call: ir.CallNamed(gv, v(i))}, next}}
+			return cat(defs, []ir.Stmt{ir.Set(gv, fns[0]), loop}, exit())
+		case 5:
+			run := name("run", 0)
+			loop := ir.ForIn{Vars: []string{"cb"}, Coll: v("cbs"), Body: []ir.Stmt{ir.Defer{Call: ir.CallNamed("cb", ir.I(2))}}}
+			body := cat([]ir.Stmt{g.p(), loop}, exit(), []ir.Stmt{g.p(), ir.Return{Vals: []ir.Expr{ir.I(9)}}})
+			return cat(defs, []ir.Stmt{ir.Func(run, []string{"cbs"}, body), guarded(ir.CallNamed(run, ir.List{Elems: fns}))})
+		}
+		panic("bad rebind form")
+	}
 }
